@@ -130,23 +130,30 @@ def replace_history(cache_type: str, flags: tuple[bool, bool], which: str) -> di
             "meta": {"scenario": f"replace-{which}-flags{int(flags[0])}{int(flags[1])}", "cache_type": cache_type, "parallel": False}}
 
 
-def history(scen: dict, cache_type: str, parallel: bool) -> dict:
+def history(scen: dict, cache_type: str, parallel) -> dict:
+    """parallel: False (sequential) | True / "thread" (thread pool, shared cache) | "process" (process pool: the workers reach
+    the cache through its Manager proxies; calls are ordered by the append-only cross-process log file)."""
+    from concurrent.futures import ProcessPoolExecutor
+    import os
     pdesc = pmap.tla_desc_to_py(scen["desc"])
     pdesc["cache_type"] = cache_type
     tmp = tempfile.mkdtemp(prefix="pfverif_c09m_")
     if cache_type == "disk":
         pdesc["cache_kwargs"] = {"cache_dir": tmp + "/cache"}
     elif cache_type in ("lru", "hybrid"):
-        pdesc["cache_kwargs"] = {"shared": parallel}
-    build.reset_log()
+        pdesc["cache_kwargs"] = {"shared": bool(parallel)}
+    logf = tmp + "_calls.ndjson"
+    build.reset_log(logf if parallel == "process" else None)
     evs: list[dict] = []
-    ex = ThreadPoolExecutor(3) if parallel else None
+    ex = None
+    if parallel:
+        ex = ProcessPoolExecutor(3) if parallel == "process" else ThreadPoolExecutor(3)
     try:
         with contextlib.redirect_stdout(io.StringIO()):
             pl = build.make_pipeline(pdesc)
         inp = pmap.inputs_to_py(scen["inputs"], {n: "list" for n, _ in scen["inputs"]})
         for run in range(2):
-            e, res = pmap.do_map(pl, pdesc, inp, run_folder=tmp + f"/run{run}", storage="dict", parallel=parallel,
+            e, res = pmap.do_map(pl, pdesc, inp, run_folder=tmp + f"/run{run}", storage="dict", parallel=bool(parallel),
                                  executor=ex, cleanup=True, load=False)
             evs += e
             if isinstance(res, Exception):
@@ -154,7 +161,10 @@ def history(scen: dict, cache_type: str, parallel: bool) -> dict:
     finally:
         if ex:
             ex.shutdown(wait=True)
+        build.reset_log()
         shutil.rmtree(tmp, ignore_errors=True)
+        with contextlib.suppress(FileNotFoundError):
+            os.unlink(logf)
     return {"desc": scen["desc"], "inputs": scen["inputs"], "ev": evs,
             "meta": {"scenario": scen["name"], "cache_type": cache_type, "parallel": parallel}}
 
@@ -168,6 +178,8 @@ def run(ctx) -> None:
         for ct in (["lru"] if quick else ["lru", "hybrid", "simple"]):
             for _ in range(1 if quick else 5):
                 traces.append(history(scen, ct, True))
+        for ct in (["lru"] if quick else ["lru", "hybrid", "disk"]):       # worker PROCESSES sharing the cache
+            traces.append(history(scen, ct, "process"))
     for ct in (["simple", "lru"] if quick else ["simple", "lru", "hybrid", "disk"]):
         traces.append(resources_history(ct))
     for ct in (["simple", "lru"] if quick else ["simple", "lru", "hybrid", "disk"]):
